@@ -7,6 +7,8 @@ pub mod c02;
 pub mod c03;
 pub mod c04;
 pub mod c05;
+pub mod c06;
+pub mod c07;
 pub mod c13;
 pub mod util;
 
@@ -25,6 +27,10 @@ pub fn scenario(name: &str) -> Option<Scenario> {
         "c03_breaker" => c03::c03_breaker,
         "c04_accounting" => c04::c04_accounting,
         "c05_isolation" => c05::c05_isolation,
+        "c05_hotspot" => c05::c05_hotspot,
+        "c06_hotspot_qps" => c06::c06_hotspot_qps,
+        "c07_flow_throttling" => c07::c07_flow_throttling,
+        "c07_hotspot_throttling" => c07::c07_hotspot_throttling,
         "c13_chain" => c13::c13_chain,
         _ => return None,
     })
